@@ -65,7 +65,7 @@ func pnSites(c *Ctx, cone map[*ssa.Function]bool) []pnSite {
 	var out []pnSite
 	for _, fn := range sortedFuncs(moduleOnly(c, cone)) {
 		var ps, as []ssa.Instruction
-		for _, b := range fn.Blocks {
+		for _, b := range theCtx.GB(fn) {
 			for _, ins := range b.Instrs {
 				switch x := ins.(type) {
 				case *ssa.Panic:
@@ -259,7 +259,7 @@ func pnTypeSwitch(c *Ctx, s pnSite) (bool, string) {
 	}
 	conv := map[string]bool{}
 	for _, fn := range c.ModFuncs("lzma", "") {
-		for _, b := range fn.Blocks {
+		for _, b := range theCtx.GB(fn) {
 			for _, ins := range b.Instrs {
 				if mi, ok := ins.(*ssa.MakeInterface); ok && types.Identical(mi.Type(), opT) {
 					conv[mi.X.Type().String()] = true
@@ -268,7 +268,7 @@ func pnTypeSwitch(c *Ctx, s pnSite) (bool, string) {
 		}
 	}
 	cases := map[string]bool{}
-	for _, b := range s.fn.Blocks {
+	for _, b := range theCtx.GB(s.fn) {
 		for _, ins := range b.Instrs {
 			if ta, ok := ins.(*ssa.TypeAssert); ok && ta.CommaOk {
 				cases[ta.AssertedType.String()] = true
@@ -335,7 +335,7 @@ func pnCEHeaderLen(c *Ctx) (bool, string) {
 		isKind[v] = true
 	}
 	for _, fn := range c.ModFuncs("lzma") {
-		for _, b := range fn.Blocks {
+		for _, b := range theCtx.GB(fn) {
 			for _, ins := range b.Instrs {
 				if st, ok := storeToField(ins, fCtype); ok {
 					if k, isK := constInt(st.Val); isK && isKind[k] {
@@ -465,7 +465,7 @@ func pnAssert(c *Ctx, s pnSite) (bool, string) {
 		case *ssa.Call:
 			callee := x.Call.StaticCallee()
 			if callee != nil && c.InModule(callee) && callee.Blocks != nil {
-				for _, b := range callee.Blocks {
+				for _, b := range theCtx.GB(callee) {
 					for _, ins := range b.Instrs {
 						if ret, ok := ins.(*ssa.Return); ok {
 							if ok, why := check(ret.Results[0], depth+1); !ok {
@@ -481,7 +481,7 @@ func pnAssert(c *Ctx, s pnSite) (bool, string) {
 				f := fieldOfAddr(fa)
 				n := 0
 				for _, fn := range c.modFuncs {
-					for _, b := range fn.Blocks {
+					for _, b := range theCtx.GB(fn) {
 						for _, ins := range b.Instrs {
 							if st, ok := storeToField(ins, f); ok {
 								n++
